@@ -41,6 +41,17 @@ CLAIMED = {
   "Model.Literal / Spec.Numeral are the Lua semantics, not mirrors of golua's regexp/strconv code: that part is tied by correspondence only (level A). Statement forms are checked for "
   "acceptance and error position only; the expected error token of a corruption is known by construction, not from a Lean statement grammar. Comments/whitespace are exercised through "
   "spellings, not modelled. Trusted: Lean kernel, harness AST dumper (BinOp lists read as left folds, as astcomp compiles them), extract/fronttab.", "6/C12, 14/C12"),
+ "C15": ("proof",
+  "Lean 4 refinement: golua's iterative trackback matcher and its pattern builder (hand-mirrored with checked indexing) against the manual's recursive search and grammar, for all patterns/subjects/starts; named byte sets regenerated from byteset.go; exhaustive token-pattern x subject x init correspondence at spec level (A) and mirror level (B)",
+  "Props/C15*.lean (30 obligations, propext/Classical.choice/Quot.sound): build_total (pattern.New never panics, all strings); build_refines_parse; machine_refines_spec_partial and "
+  "match_total_partial (MatchFromStart = Spec.find with all captures, terminates, no recovered panic: all strings/subjects/starts, hypotheses = parsed by the Spec, no descending range, "
+  "no %n to (), <=10000 bytes, the first three each with a proved counterexample, the last an implementation limit); lua_find_refines_spec_partial / lua_match_refines_spec_partial; "
+  "gsub_progress for every matcher; budget_charged; named_sets_correct over the regenerated table; byte-set algebra. gmatch/gsub versus the 5.4 iteration, and patterns the Spec rejects "
+  "or leaves open, rest on correspondence only: every pattern of <=3 tokens (29-token alphabet incl. malformed fragments) x every subject of <=3 symbols over {a,b,(,)} x every init, "
+  "random long ones, random bracket sets x all 256 bytes.",
+  "Trusted: Lean kernel; hand mirrors Model.ByteSet/PatBuild/PatMatch/Gsub (tied by level B incl. error kinds and exact budget used); extract/bytesets; harness/oracle parsers. "
+  "Seven recorded defects (known_findings.json, C15-*) with counterexample theorems. CPU accounting is checked as an inequality against the mirror's step counter. %+alphanumeric "
+  "non-class, [%a-z], [a-%x], []-x], ^ in gmatch, invalid replacement escapes are left open by the manual and not compared at level A.", "6/C15, 10/C15, 14/C15"),
 }
 
 NOT_YET = "machinery for this property is not built yet in this revision (see DESIGN.md section 9 build order); not claimed"
